@@ -983,6 +983,15 @@ func (m *repoManager) matchingUUID(str string) (dvid.UUID, dvid.VersionID, error
 	var bestUUID dvid.UUID
 	numMatches := 0
 	m.idMutex.RLock()
+	if versionID, found := m.uuidToVersion[dvid.UUID(str)]; found && len(str) != 0 {
+		// The string is a UUID in full (e.g., a short tag): it names that version even if it is
+		// also the beginning of other UUIDs.
+		m.idMutex.RUnlock()
+		if len(branch) != 0 {
+			return m.getBranchVersion(dvid.UUID(str), branch)
+		}
+		return dvid.UUID(str), versionID, nil
+	}
 	for uuid, versionID := range m.uuidToVersion {
 		if strings.HasPrefix(string(uuid), str) {
 			numMatches++
